@@ -2,7 +2,9 @@
 ROUTER = '/repo/src/server/router.cc'
 OFFSETS = ['harness/offsets_router.cc']
 FIND = '_ZNK8Pistache4Rest15SegmentTreeNode9findRouteERKSt17basic_string_viewIcSt11char_traitsIcEERSt6vectorINS0_10TypedParamESaIS9_EESC_'
-UNITS = {'find': dict(src=ROUTER, mode='sel', roots=[FIND], selfcall={FIND: 'vp_rec_findRoute'})}
+ROUTE = '_ZN8Pistache4Rest6Router5routeERKNS_4Http7RequestENS2_14ResponseWriterE'
+UNITS = {'route': dict(src=ROUTER, mode='sel', roots=[ROUTE]),
+         'find': dict(src=ROUTER, mode='sel', roots=[FIND], selfcall={FIND: 'vp_rec_findRoute'})}
 HARNESSES = [
   dict(name='find_step', units=['find'], file='c10_route.c', defs={'NPAR': 2}, unwind=4, hunwind=34, timeout=1500,
        bound='ONE level of findRoute on an arbitrary node: <= 2 fixed, <= 2 parameter, <= 1 optional, optional splat child, optional route; keys/names/segment of 1..2 arbitrary bytes; lower path of <= 3 arbitrary bytes; <= 2 earlier bindings; children answer arbitrarily (induction hypothesis)',
